@@ -318,6 +318,7 @@ class RefSdoServer:
                           "size": size, "crc": crc_on, "blksize": blk, "expected": 1,
                           "ackseq": 0, "segs": [], "last_seen": False, "gen": 0,
                           "ooo": 0, "subblocks": 0, "retx": 0}
+            self.bd_accepted = []
             self._arm_stall()
             self._send(bytes([0xA0 | (4 if self.style.crc else 0), d[1], d[2], sub, blk, 0, 0, 0]))
             return
@@ -374,6 +375,7 @@ class RefSdoServer:
 
     stalled = False
     bd_stats = None
+    bd_accepted = ()
 
     def _bd_segment(self, d):
         st = self.state
@@ -391,6 +393,7 @@ class RefSdoServer:
             return
         in_order = seq == st["expected"]
         if in_order:
+            self.bd_accepted.append(bytes(d))
             st["segs"].append(d[1:8])
             st["ackseq"] = seq
             st["expected"] += 1
